@@ -293,6 +293,44 @@ Proof. exact PcProofs.detect_walk_calc. Qed.
 Theorem C09_pc_judge_model : forall c, PcComp.judge c (PcComp.run c) = true.
 Proof. exact PcProofs.judge_run. Qed.
 
+(* ---------------- what the manager hands to the congestion controller ---------------- *)
+(* on loss: timestamp = the detection time (the op's now), never a send time; positive bytes; the
+   packet's path; the persistent-congestion flag as the calculator and threshold above define it *)
+Theorem C09_cc_lost_calls : forall ls m pcd cpath now prev k,
+  In k (Recovery.lost_calls m pcd cpath now prev ls) ->
+  Recovery.k_kind k = 3 /\ Recovery.k_d k = now /\
+  exists p, In p ls /\ 0 < Recovery.p_bytes p /\ Recovery.k_a k = Recovery.p_bytes p /\ Recovery.k_path k = Recovery.p_path p
+    /\ Recovery.k_b k = Recovery.nb ((Rtt.persistent_congestion_threshold (Recovery.rt (Recovery.get_path m (Recovery.p_path p))) <? pcd)
+                                      && (Recovery.p_path p =? cpath)).
+Proof. exact PcProofs.lost_calls_spec. Qed.
+
+(* new_loss_burst is true exactly for the first lost packet of a detection and after a packet number gap *)
+Theorem C09_cc_lost_calls_burst : forall m pcd cpath now prev p t,
+  Recovery.lost_calls m pcd cpath now prev (p :: t) =
+  (if 0 <? Recovery.p_bytes p
+   then [{| Recovery.k_kind := 3; Recovery.k_path := Recovery.p_path p; Recovery.k_a := Recovery.p_bytes p;
+            Recovery.k_b := Recovery.nb ((Rtt.persistent_congestion_threshold (Recovery.rt (Recovery.get_path m (Recovery.p_path p))) <? pcd)
+                                          && (Recovery.p_path p =? cpath));
+            Recovery.k_c := Recovery.nb (match prev with None => true | Some q => negb (Recovery.p_pn p =? q + 1) end);
+            Recovery.k_d := now |}]
+   else [])
+  ++ Recovery.lost_calls m pcd cpath now (Some (Recovery.p_pn p)) t.
+Proof. exact PcProofs.lost_calls_burst. Qed.
+
+(* the calls of one detection are those for exactly the packets it declares lost *)
+Theorem C09_cc_detect_calls : forall m now cpath, exists ls,
+  snd (Recovery.detect_and_remove m now cpath) = map Recovery.p_pn ls
+  /\ Recovery.detect_calls m now cpath =
+     Recovery.lost_calls m (Recovery.maxd (fold_left (PcProofs.step (Recovery.fts (Recovery.get_path m cpath)) cpath) ls PcComp.pc0))
+                         cpath now None ls.
+Proof. exact PcProofs.detect_calls_spec. Qed.
+
+(* every call of every op carries the op's time where the API asks for "now": on_packet_sent the send
+   time, on_ack the receive time, on_packet_lost the detection time (this is the judge's clause) *)
+Theorem C09_cc_calls_time : forall m c a b d e f g,
+  Recovery.calls_ok (Recovery.op_now (Recovery.m_now m) c a e) (Recovery.calls_z (Recovery.mcalls m c a b d e f g)) = true.
+Proof. exact RecoveryJudgeProofs.mcalls_ok. Qed.
+
 (* non-vacuity *)
 Example C09_example :
   Loss.run [100000000; 0; 0; 0; 1000; 0; 1; 113500; 0]%Z = [100000000; 100000000; 112500000; 1; 0]%Z
@@ -310,8 +348,8 @@ Example C09_manager_example :
                1; 1; 1200; 1; 10; 0; 0; 0;  1; 1; 1200; 1; 10; 0; 0; 0;  2; 0; 0; 0; 0; 0; 0; 0;
                3; 100000; 3; 0; 0; 0; 0; 0;  5; 400000; 0; 0; 0; 0; 0; 0]%Z in
   Recovery.judge case (Recovery.run case) = true
-  /\ firstn 3 (skipn (6 * 23) (Recovery.run case)) = [0; 1; 0]%Z
-  /\ firstn 4 (skipn (6 * 23 + 26) (Recovery.run case)) = [0; 2; 1; 2]%Z.
+  /\ firstn 3 (skipn (5 * 30 + 24) (Recovery.run case)) = [0; 1; 0]%Z
+  /\ firstn 4 (skipn (5 * 30 + 24 + 39) (Recovery.run case)) = [0; 2; 1; 2]%Z.
 Proof. vm_compute. repeat split; reflexivity. Qed.
 
 Print Assumptions C09_k_packet_threshold_is_3.
@@ -356,3 +394,7 @@ Print Assumptions C09_pc_spec_witness.
 Print Assumptions C09_pc_threshold.
 Print Assumptions C09_pc_judge_model.
 Print Assumptions C09_pc_manager_duration.
+Print Assumptions C09_cc_lost_calls.
+Print Assumptions C09_cc_lost_calls_burst.
+Print Assumptions C09_cc_detect_calls.
+Print Assumptions C09_cc_calls_time.
